@@ -322,6 +322,7 @@ Definition connect_justified (s : state) : bool :=
        end.
 
 Definition stream_negotiation_success (s : state) : R :=
+  if negb (is_raw s) && neg_done s then ret s else
   let s1 := if connect_justified s then s else upg (set_g_conn_unjust true) s in
   (set_neg_done true s1, [OConnect]).
 
